@@ -141,6 +141,12 @@ def bodyFields (repeated : Bool) : List RespHdr → Nat → Option (List Header 
         | none => none
         | some (fs, a) => some (vals.map (fun v => (name, v)) ++ fs, a)
 
+/-- what the size pre-pass of h2_send_headers() reserves for the "server" field it may add -/
+def serverCost (serverTag : Option Bytes) : Nat :=
+  match serverTag with
+  | some t => 6 + t.length + 4
+  | none => 0
+
 /-- h2_send_headers(): the header list given to lshpack_enc_encode() -/
 def respFields (status : Nat) (r : Resp) (serverTag : Option Bytes) : Option (List Header) :=
   -- 304 responses drop Content-Encoding
@@ -151,9 +157,7 @@ def respFields (status : Nat) (r : Resp) (serverTag : Option Bytes) : Option (Li
   -- anything is handed to the HPACK encoder
   let total := r.arr.foldl (fun a e => if e.key = [] ∨ e.value = [] then a
                                         else a + e.key.length + e.value.length + 4)
-                 (14 + 37 + (match serverTag with
-                             | some t => 6 + t.length + 4
-                             | none => 0))
+                 (14 + 37 + serverCost serverTag)
   if total > 65535 then none else
   match bodyFields r.repeated r.arr 14 with
   | none => none
